@@ -46,6 +46,8 @@ type Case struct {
 	// all coordinates moved by this many whole units (the same picture in
 	// pixel space, another coordinate system).
 	Earlier [2]int `json:"earlier_shift,omitempty"`
+	// PixelCircle: the radii are in exactly the inverse ratio of the two pixel scales.
+	PixelCircle bool `json:"pixel_circle,omitempty"`
 	// ViaBytes: the arc reaches the Renderer through decode.Decode, from a hand-assembled stream
 	// whose numbers are all in the 4-byte form (every value of the case is a 30-bit float then;
 	// rotations outside [0,1] are legal in a file).
@@ -388,6 +390,21 @@ func genConstructive(t *rapid.T) Case {
 	if rapid.IntRange(0, 5).Draw(t, "circle") == 0 {
 		ry = rx
 	}
+	pixelCircle := rapid.IntRange(0, 9).Draw(t, "pixelcircle") == 0
+	if pixelCircle {
+		// an ellipse that the non-uniform map turns into a circle of pixels (radii in exactly the
+		// inverse ratio of the two scales): an ellipse all the same, rotation included
+		pw := func(l string) int { return 16 << uint(rapid.IntRange(0, 4).Draw(t, l)) }
+		vw, vh, rw, rh := pw("pc.vw"), pw("pc.vh"), pw("pc.rw"), pw("pc.rh")
+		x0, y0 := float32(rapid.IntRange(-40, 40).Draw(t, "pc.x0")), float32(rapid.IntRange(-40, 40).Draw(t, "pc.y0"))
+		c.ViewBox = [4]ops.F32{ops.F32(x0), ops.F32(y0), ops.F32(x0 + float32(vw)), ops.F32(y0 + float32(vh))}
+		c.Rect[2], c.Rect[3] = rw, rh
+		rx = math.Round(rx*4) / 4
+		ry = rx * (float64(rw) / float64(vw)) / (float64(rh) / float64(vh))
+		if ry < 0.25 || ry > 240 {
+			ry = rx
+		}
+	}
 	rot := float64(float32(genRot(t)))
 	phi := 2 * math.Pi * rot
 	th1 := rapid.Float64Range(0, 2*math.Pi).Draw(t, "theta1")
@@ -449,6 +466,7 @@ func genConstructive(t *rapid.T) Case {
 		c.RX = -c.RX // the sign of a radius is ignored
 	}
 	c.Rot = ops.F32(float32(rot))
+	c.PixelCircle = pixelCircle && rx != ry
 	c.LargeArc = math.Abs(delta) > math.Pi
 	if family == "undersized" || family == "exact-fit" {
 		c.LargeArc = rapid.Bool().Draw(t, "la") // irrelevant for a half ellipse
@@ -577,6 +595,9 @@ func TestArcs(t *testing.T) {
 			c.Want = nil // constructed for the values before truncation: the independent F.6.5 reference decides
 		}
 		nt, labels := classify(c)
+		if c.PixelCircle {
+			labels = append(labels, "ellipse-that-the-map-turns-into-a-circle-of-pixels")
+		}
 		if c.ViaBytes {
 			labels = append(labels, "through-Decode-from-an-assembled-stream")
 			if c.Rot < 0 || c.Rot > 1 {
